@@ -148,6 +148,9 @@ def run_with(binary, by_ob, scratch, log):
     path = os.path.join(scratch, "replay_intuse.pl")
     open(path, "w", encoding="utf-8").write(PROGRAM)
     p = _run(binary, path)
+    if "overwriting" in (p.stdout + p.stderr):
+        log.append("oracle program is malformed (discontiguous clauses were overwritten): not used")
+        return {ob: None for ob in by_ob}
     fails = []
     n = 0
     for line in p.stdout.split("\n"):
